@@ -140,6 +140,16 @@ def judge(r, kind, ivs, probes, cnt):
                     dict(rep, snippet=snippet(ivs, "# expected to construct")))
         return
     m = res[1]
+    # the caller keeps its dict and goes on using it: the map is a value of its own ("Immut"), so what happens to the
+    # dict afterwards -- an interval added far away, a value replaced, an interval dropped -- is none of its business
+    shown = dict(mapping)
+    far = max([e for _, e in ivs] + [0]) + 1000
+    mapping[(far, far + 1)] = "added-later"
+    if ivs:
+        mapping[ivs[0]] = "replaced-later"
+        if len(ivs) > 1:
+            del mapping[ivs[-1]]
+    mapping = shown
     # a second map that has been alive since the start of the run must not be affected by building this one
     global DECOY
     if DECOY is None:
